@@ -50,23 +50,38 @@ DESCRIBE = {
     "parse_uri": "util.parse_cooler_uri vs Lean `parseCoolerUriStr`",
     "constants": "cooler.create.MAGIC vs the model's constant",
 }
-RULE = ("alphabet: files A,B x paths {/, /a, /a/b, /c} x ops create(a/w/r+), cp, mv, ln, ln -s, with/without overwrite, "
-        "URIs with and without leading slash; quick: every op of the full alphabet at every model-distinct state reachable "
-        "in <=1 step from I1 (A holds /a) and every op of the reduced alphabet at every state reachable in <=1 step from I2 "
-        "(A holds / and /a/b, B holds /c) [= all histories of length <=2]; thorough: full alphabet to length 2 from both, "
-        "reduced alphabet to length 3 from both; plus seeded random histories of length <=6 guided towards existing sources; "
-        "non-trivial = contains a copy/move/link; distinct by canonical JSON")
+RULE = ("alphabet: files A,B x paths {/, /a, /a/b, /c}; full = 292 ops: create(a/w at every file x path, r+ at two), "
+        "cp/mv/ln/ln -s for every (src file, src path, dst file, dst path), overwrite variants; reduced = 55 ops; URIs with "
+        "and without leading slash (hash-chosen per op, both forms in observations). quick: every op of the full alphabet "
+        "at every model-distinct state reachable in <=1 state-changing step from I1 (A holds /a and an unrelated root "
+        "attribute; B absent) and every op of the reduced alphabet at every state <=1 step from I2 (A holds / and /a/b, B "
+        "holds /c) [= all histories of length <=2 up to model-state equality]; thorough: full alphabet to length 2 from "
+        "both, reduced alphabet to length 3 from both; plus 160 / 1500 seeded random histories of 2..6 operations after 1-3 "
+        "creates, steered by the model towards existing sources and away from steps without a verdict; corpus of past "
+        "findings first; non-trivial = contains a copy/move/link; distinct by canonical JSON")
 EXHAUSTIVE = {"quick": True, "thorough": True}
 TRUSTED = ["HDF5/h5py (groups, hard/soft/external links, attributes, file modes, Group.copy) are primitives of the file model",
            "content of a collection abstracted to the value of its single pixel (and the `sum` attribute)",
            "case enumeration uses the model's state digest to visit each reachable state once (selection only, no verdict)"]
 ASSUMPTIONS = [
-    "steps the model marks as unmodelled h5py corner end the history without a verdict (counted in stats): in-place "
-    "modification of a group reachable under two hard-link names; hard link below its own target or link cycles "
-    "(RecursionError / 'too many links' in h5py); destination or mv-source parent path passing through an external or "
-    "unresolvable link; a source that is not a group",
+    "a step the model marks as an unmodelled h5py corner ends the history without a verdict (counted in stats as "
+    "corner:<reason>; the step is not executed): (1) 'hard link below its own target (cycle)' and 'cyclic namespace' — "
+    "ln/mv whose destination lies inside the linked group, soft links to an ancestor or to themselves, an external "
+    "link copied into its own target file: h5py answers RecursionError / 'too many links' and the set of paths is "
+    "infinite; (2) '... multiply linked group' — a group object reachable under two hard-link names is modified in "
+    "place (the model duplicates hard-linked regions, which is exact as long as neither copy changes); (3) "
+    "'destination parent passes through an external link / an unresolvable link / a dataset', 'source parent passes "
+    "through an external link', 'source reaches the destination file through a link' — HDF5 inter-file rules; "
+    "(4) 'source is not a group' (a dataset as source)",
     "links inside a collection's payload are not modelled (cooler creates none outside scool files)",
-    "same-file overwrite: h5py refuses to truncate a file it already holds open (OSError, no effect) — mirrored",
+    "h5py/HDF5 behaviours mirrored as primitives, found by probing: truncating a file that is already open fails "
+    "(same-file overwrite: OSError, no effect); H5Ocopy refuses a destination path through a soft link (RuntimeError, "
+    "no effect) while creating groups/links through one works; H5Ocopy of a link child copies the target object; the "
+    "destination file is created/truncated before the operation is attempted, so a failing cp/mv/ln can leave an empty "
+    "or emptied destination file; a root-destination copy that fails half-way keeps the children copied so far",
+    "known deviations (D4, D5) are verified against the Lean variant oracle inside the check and the history continues "
+    "under that variant; only the first 40 fan cases / 40 random histories hand their deviations to classify() "
+    "(the runner keeps at most 200 mismatches), the rest are counted in stats as known_<id>",
 ]
 
 _N = [0]
@@ -246,6 +261,7 @@ def _applicable(op, vops):
 class Sess:
     def __init__(self, cls=False):
         self.vops = []       # ops done, each with the variant flags it was modelled under
+        self.trace = []      # canonical observation of the implementation after each op
         self.flags = set()
         self.dev = []        # explained deviations
         self.cls = cls
@@ -253,6 +269,7 @@ class Sess:
     def clone(self):
         s = Sess(self.cls)
         s.vops = list(self.vops)
+        s.trace = list(self.trace)
         s.flags = set(self.flags)
         s.dev = list(self.dev)
         return s
@@ -267,9 +284,43 @@ class Sess:
         oc = m["outcome"]
         if isinstance(oc, dict) and "corner" in oc:
             return oc["corner"]
-        for f, o in m["obs"].items():
+        for f, o in m.get("obs", {}).items():
             if o["list"] == "cyclic":
                 return "cyclic namespace (link to an ancestor)"
+        return None
+
+    def _canon(self, m):
+        return {"outcome": _canon_out(m["outcome"], self.cls), "obs": _canon_obs(m["obs"], self.cls)}
+
+    def _explain(self, op, impl):
+        """a known-finding variant (flags switched on from the first step whose signature they match — a deviation
+        need not be observable at once: `mv` of a plain group across files shows only when the group is used
+        again) under which the model agrees with EVERY observation made so far"""
+        k = len(self.vops)
+        hist = [_strip(o) for o in self.vops] + [op]
+        act = {}                      # flag -> first step at which its signature matches while it is off
+        for i in range(k + 1):
+            on_i = {f for f in FLAGS if self.vops[i]["v"][f]} if i < k else self.flags
+            for f in _applicable(hist[i], hist[:i]):
+                if f not in on_i:
+                    act.setdefault(f, i)
+        cand = sorted(act)
+        for r in range(1, len(cand) + 1):
+            for sub in itertools.combinations(cand, r):
+                first = min(act[f] for f in sub)
+                vops = []
+                for i in range(k + 1):
+                    base = dict(self.vops[i]["v"]) if i < k else _vdict(self.flags)
+                    for f in sub:
+                        if i >= act[f]:
+                            base[f] = True
+                    vops.append(dict(hist[i], v=base))
+                res = drv().ask("C15.run", ops=vops, files=FILES, cands=CANDS, observe_from=first)["steps"]
+                if any(self._corner(m) for m in res[first:]):
+                    continue
+                want = self.trace[first:] + [impl]
+                if all(self._canon(m) == w for m, w in zip(res[first:], want)):
+                    return sub, first, vops
         return None
 
     def step(self, op, alt):
@@ -284,24 +335,20 @@ class Sess:
         impl_out = _do(op)
         impl_obs = _observe(alt)
         impl = {"outcome": _canon_out(impl_out, self.cls), "obs": _canon_obs(impl_obs, self.cls)}
-        mod = {"outcome": _canon_out(m["outcome"], self.cls), "obs": _canon_obs(m["obs"], self.cls)}
+        mod = self._canon(m)
         if impl == mod:
             self.vops.append(dict(op, v=_vdict(self.flags)))
+            self.trace.append(impl)
             return None
-        cand = sorted(_applicable(op, self.vops) - self.flags)
-        for r in range(1, len(cand) + 1):
-            for sub in itertools.combinations(cand, r):
-                fl = self.flags | set(sub)
-                m2 = self._model(op, fl)
-                if self._corner(m2):
-                    continue
-                mod2 = {"outcome": _canon_out(m2["outcome"], self.cls), "obs": _canon_obs(m2["obs"], self.cls)}
-                if impl == mod2:
-                    self.flags = fl
-                    self.vops.append(dict(op, v=_vdict(fl)))
-                    self.dev.append({"ids": [FID[x] for x in sub], "step": k, "ops": [_strip(o) for o in self.vops],
-                                     "flags": [o["v"] for o in self.vops], "impl": impl})
-                    return None
+        ex = self._explain(op, impl)
+        if ex is not None:
+            sub, first, vops = ex
+            self.vops = vops
+            self.flags = {f for f in FLAGS if vops[-1]["v"][f]}
+            self.trace.append(impl)
+            self.dev.append({"ids": [FID[x] for x in sub], "step": k, "from": first, "ops": [_strip(o) for o in vops],
+                             "flags": [o["v"] for o in vops], "impl_trace": self.trace[first:]})
+            return None
         diff = _diff(impl, mod)
         return ("mismatch", {"step": k, "op": op, "diff": diff, "impl_outcome": impl_out if impl_out == "ok" else list(impl_out),
                              "model_outcome": m["outcome"], "flags_on": sorted(self.flags)})
@@ -711,28 +758,28 @@ def escalate(name, case, rng):
 
 
 def classify(name, case, result, findings):
-    """a deviation is a known finding only if (i) the step matches the finding's signature and (ii) the
-    implementation's observation equals the Lean model's under exactly that variant"""
-    if name not in ("history", "fan") or not isinstance(result, dict) or "known" not in result:
+    """a deviation is a known finding only if (i) every variant flag is switched on at a step that matches the
+    finding's signature (recomputed here from the case) and (ii) the implementation's observations, from that step to
+    the deviating one, equal the Lean model's under exactly that variant"""
+    if name not in ("history", "fan") or not isinstance(result, dict) or "known" not in result or not result["known"]:
         return None
     ids = {f["id"] for f in findings}
     first = None
     for d in result["known"]:
-        ops, flags, k = d["ops"], d["flags"], d["step"]
-        if len(ops) != k + 1:
+        ops, flags, k, j = d["ops"], d["flags"], d["step"], d["from"]
+        if len(ops) != k + 1 or len(flags) != k + 1 or not set(d["ids"]) <= ids:
             return None
-        # (i) signature, recomputed from the case
-        app = {FID[x] for x in _applicable(ops[k], ops[:k])}
-        if not set(d["ids"]) <= app or not set(d["ids"]) <= ids:
-            return None
-        on = {FID[x] for x in FLAGS if flags[k][x]}
-        if not on <= {FID[x] for x in _applicable(ops[k], ops[:k])} | {FID[x] for x in FLAGS if k and flags[k - 1][x]}:
-            return None
+        # (i) signature
+        prev = set()
+        for i in range(k + 1):
+            on = {x for x in FLAGS if flags[i][x]}
+            if not on <= prev | _applicable(ops[i], ops[:i]):
+                return None
+            prev = on
         # (ii) variant oracle
-        r = drv().ask("C15.run", ops=[dict(o, v=v) for o, v in zip(ops, flags)], files=FILES, cands=CANDS, observe_from=k)
-        m = r["steps"][-1]
-        mod = {"outcome": _canon_out(m["outcome"], False), "obs": _canon_obs(m["obs"], False)}
-        if json.dumps(mod, sort_keys=True) != json.dumps(d["impl"], sort_keys=True):
+        r = drv().ask("C15.run", ops=[dict(o, v=v) for o, v in zip(ops, flags)], files=FILES, cands=CANDS, observe_from=j)
+        got = [{"outcome": _canon_out(m["outcome"], False), "obs": _canon_obs(m["obs"], False)} for m in r["steps"][j:]]
+        if json.dumps(got, sort_keys=True) != json.dumps(d["impl_trace"], sort_keys=True):
             return None
         first = first or d["ids"][0]
     return first
